@@ -963,6 +963,14 @@ def f_percentile(a, q, **kw):
     return res
 
 
+def f_flatnonzero(a):
+    return ndarray([i for i, b in enumerate(_flat(a)) if bool(_truthy(b))])
+
+
+def f_nonzero(a):
+    return (f_flatnonzero(a),)
+
+
 def f_cumsum(a, axis=None):
     v = _flat(a)
     out, t = [], None
